@@ -6,6 +6,7 @@
 package verifimport
 
 import (
+	"encoding/json"
 	"context"
 	"fmt"
 	"os"
@@ -259,6 +260,22 @@ func TestVerifC15(t *testing.T) {
 	shard, n := verifkit.Shard()
 	deadline := verifkit.Deadline(150*time.Second, 45*time.Minute)
 	only := os.Getenv("VERIF_ONLY")
+	if rp := os.Getenv("VERIF_REPLAY"); rp != "" {
+		// check C15 <tier> --replay <file>: only the recorded (old config, new config) pair is executed
+		var doc struct {
+			Replay struct{ Old, New cfgChoice } `json:"replay"`
+		}
+		b, err := os.ReadFile(rp)
+		if err == nil {
+			err = json.Unmarshal(b, &doc)
+		}
+		if err != nil {
+			t.Fatalf("replay: %v", err)
+		}
+		only = doc.Replay.Old.String() + " -> " + doc.Replay.New.String()
+		fmt.Printf("replay of the import pair %s\n", only)
+		g = grammar(true)
+	}
 	pairs := 0
 	for oi, oc := range g {
 		old := oc.config()
